@@ -126,21 +126,27 @@ func (store *fileStore) Reset() error {
 	if err := store.Close(); err != nil {
 		return errors.Wrap(err, "close")
 	}
+	verifPoint("reset:closed")
 	if err := removeFile(store.bodyFname); err != nil {
 		return err
 	}
+	verifPoint("reset:removed:body")
 	if err := removeFile(store.headerFname); err != nil {
 		return err
 	}
+	verifPoint("reset:removed:header")
 	if err := removeFile(store.sessionFname); err != nil {
 		return err
 	}
+	verifPoint("reset:removed:session")
 	if err := removeFile(store.senderSeqNumsFname); err != nil {
 		return err
 	}
+	verifPoint("reset:removed:senderSeqNums")
 	if err := removeFile(store.targetSeqNumsFname); err != nil {
 		return err
 	}
+	verifPoint("reset:removed:targetSeqNums")
 	return store.Refresh()
 }
 
@@ -163,18 +169,23 @@ func (store *fileStore) Refresh() (err error) {
 	if store.bodyFile, err = openOrCreateFile(store.bodyFname, 0660); err != nil {
 		return err
 	}
+	verifPoint("refresh:opened:body")
 	if store.headerFile, err = openOrCreateFile(store.headerFname, 0660); err != nil {
 		return err
 	}
+	verifPoint("refresh:opened:header")
 	if store.sessionFile, err = openOrCreateFile(store.sessionFname, 0660); err != nil {
 		return err
 	}
+	verifPoint("refresh:opened:session")
 	if store.senderSeqNumsFile, err = openOrCreateFile(store.senderSeqNumsFname, 0660); err != nil {
 		return err
 	}
+	verifPoint("refresh:opened:senderSeqNums")
 	if store.targetSeqNumsFile, err = openOrCreateFile(store.targetSeqNumsFname, 0660); err != nil {
 		return err
 	}
+	verifPoint("refresh:opened:targetSeqNums")
 
 	if !creationTimePopulated {
 		if err := store.setSession(); err != nil {
@@ -235,10 +246,12 @@ func (store *fileStore) setSession() error {
 	if _, err := store.sessionFile.Write(data); err != nil {
 		return fmt.Errorf("unable to write to file: %s: %s", store.sessionFname, err.Error())
 	}
+	verifPoint("session:written")
 	if store.fileSync {
 		if err := store.sessionFile.Sync(); err != nil {
 			return fmt.Errorf("unable to flush file: %s: %s", store.sessionFname, err.Error())
 		}
+		verifSynced(store.sessionFname)
 	}
 	return nil
 }
@@ -252,10 +265,12 @@ func (store *fileStore) setSeqNum(f *os.File, seqNum int) error {
 	if _, err := fmt.Fprintf(f, "%019d", seqNum); err != nil {
 		return fmt.Errorf("unable to write to file: %s: %s", f.Name(), err.Error())
 	}
+	verifPoint("seqnum:written")
 	if store.fileSync {
 		if err := f.Sync(); err != nil {
 			return fmt.Errorf("unable to flush file: %s: %s", f.Name(), err.Error())
 		}
+		verifSynced(f.Name())
 	}
 	return nil
 }
@@ -324,10 +339,12 @@ func (store *fileStore) SaveMessage(seqNum int, msg []byte) error {
 	if _, err := fmt.Fprintf(store.headerFile, "%d,%d,%d\n", seqNum, offset, len(msg)); err != nil {
 		return fmt.Errorf("unable to write to file: %s: %s", store.headerFname, err.Error())
 	}
+	verifPoint("save:header-written")
 
 	if _, err := store.bodyFile.Write(msg); err != nil {
 		return fmt.Errorf("unable to write to file: %s: %s", store.bodyFname, err.Error())
 	}
+	verifPoint("save:body-written")
 	if store.fileSync {
 		return store.syncBodyAndHeaderFilesLocked()
 	}
@@ -339,6 +356,7 @@ func (store *fileStore) SaveMessageAndIncrNextSenderMsgSeqNum(seqNum int, msg []
 	if err != nil {
 		return err
 	}
+	verifPoint("saveincr:saved")
 	return store.IncrNextSenderMsgSeqNum()
 }
 
@@ -348,6 +366,8 @@ func (store *fileStore) syncBodyAndHeaderFilesLocked() error {
 	} else if err = store.headerFile.Sync(); err != nil {
 		return fmt.Errorf("unable to flush file: %s: %s", store.headerFname, err.Error())
 	}
+	verifSynced(store.bodyFname)
+	verifSynced(store.headerFname)
 	return nil
 }
 
